@@ -18,22 +18,35 @@ type c02 struct {
 func newC02(w *World, m *Model) *c02 { return &c02{oracleBase: newBase("C02", w), m: m} }
 
 func (o *c02) Step(r *StepRec) []Violation {
-	e := ExpectedEffects(o.w, o.m, r)
-	got := balanceDiff(r.Pre, r.Post)
+	o.stepIn(r, "stake")
+	if o.w.cfg.FundingPoint != nil {
+		// the cases in which accounts hold a second coin: the same exact accounting in that coin
+		o.stepIn(r, "point")
+	}
+	return o.take()
+}
+
+func (o *c02) stepIn(r *StepRec, denom string) {
+	tag := ""
+	if denom != "stake" {
+		tag = "_in_second_coin"
+	}
+	e := ExpectedEffectsIn(o.w, o.m, r, denom)
+	got := balanceDiffIn(r.Pre, r.Post, denom)
 	for _, a := range sortedAddrs(got, e.Delta) {
 		if got[a] != e.Delta[a] {
-			o.fail("c02:"+r.Action.Kind, "account %s moved by %d, expected %d in %s (ok=%v)", short(a), got[a], e.Delta[a], r.Action.Kind, r.OK)
+			o.fail("c02:"+r.Action.Kind, "account %s moved by %d %s, expected %d in %s (ok=%v)", short(a), got[a], denom, e.Delta[a], r.Action.Kind, r.OK)
 			break
 		}
 	}
-	if ds := r.Post.Supply - r.Pre.Supply; ds != e.Supply {
-		o.fail("c02:"+r.Action.Kind, "supply moved by %d, expected %d in %s", ds, e.Supply, r.Action.Kind)
+	if ds := r.Post.supplyIn(denom) - r.Pre.supplyIn(denom); ds != e.Supply {
+		o.fail("c02:"+r.Action.Kind, "supply of %s moved by %d, expected %d in %s", denom, ds, e.Supply, r.Action.Kind)
 	}
 	if !r.OK {
-		return o.take()
+		return
 	}
 	// settle-once: a response is accepted only for a request the model still has pending
-	if r.Action.Kind == KRespond {
+	if r.Action.Kind == KRespond && denom == "stake" {
 		ri, ok := o.m.Reqs[r.Action.ReqID]
 		if !ok || ri.Status != "pending" {
 			st := "unknown"
@@ -44,18 +57,20 @@ func (o *c02) Step(r *StepRec) []Violation {
 		}
 	}
 	// provider earnings: +fee-tax exactly for the paid requests of this step, nothing else
+	feeOf := func(id string) (int64, string) {
+		if ri, ok := o.m.Reqs[id]; ok {
+			return ri.feeIn(denom), ri.Provider
+		} else if rq, ok := r.Post.Reqs[id]; ok { // module-service request issued in this very step
+			return amtIn(rq.ServiceFee, denom), hx(rq.Provider)
+		}
+		return 0, ""
+	}
 	expEarn := map[string]int64{}
 	for id, how := range e.Settled {
 		if how != "paid" {
 			continue
 		}
-		var fee int64
-		var prov string
-		if ri, ok := o.m.Reqs[id]; ok {
-			fee, prov = ri.Fee, ri.Provider
-		} else if rq, ok := r.Post.Reqs[id]; ok { // module-service request issued in this very step
-			fee, prov = stakeOf(rq.ServiceFee), hx(rq.Provider)
-		}
+		fee, prov := feeOf(id)
 		expEarn[prov] += fee - floorMul(fee, o.w.cfg.Tax)
 	}
 	if r.Action.Kind == KWithdraw || r.Action.Kind == KRestart {
@@ -72,26 +87,24 @@ func (o *c02) Step(r *StepRec) []Violation {
 			provs[x.Provider] = true
 		}
 		for p := range provs {
-			if d := r.Post.EarnedOf(p) - r.Pre.EarnedOf(p); d != 0 {
+			if d := r.Post.EarnedOfIn(p, denom) - r.Pre.EarnedOfIn(p, denom); d != 0 {
 				gotEarn[p] = d
 			}
 		}
 		for _, p := range sortedAddrs(gotEarn, expEarn) {
 			if gotEarn[p] != expEarn[p] {
-				o.fail("c02:earn:"+r.Action.Kind, "earnings of %s changed by %d, expected %d in %s", short(p), gotEarn[p], expEarn[p], r.Action.Kind)
+				o.fail("c02:earn:"+r.Action.Kind, "earnings of %s changed by %d %s, expected %d in %s", short(p), gotEarn[p], denom, expEarn[p], r.Action.Kind)
 				break
 			}
 		}
 	}
 	for id, how := range e.Settled {
-		fee := int64(0)
-		if ri, ok := o.m.Reqs[id]; ok {
-			fee = ri.Fee
-		} else if rq, ok := r.Post.Reqs[id]; ok {
-			fee = stakeOf(rq.ServiceFee)
-		}
+		fee, _ := feeOf(id)
 		if fee > 0 {
-			o.hit(how)
+			o.hit(how + tag)
+			if denom != "stake" {
+				continue
+			}
 			if how == "refunded" && r.Action.Kind == KEndBlock {
 				o.hit("refund_by_expiry")
 			}
@@ -103,7 +116,6 @@ func (o *c02) Step(r *StepRec) []Violation {
 			}
 		}
 	}
-	return o.take()
 }
 
 func (o *c02) NonTrivial() bool { return o.cls["paid"] > 0 && o.cls["refunded"] > 0 }
@@ -134,6 +146,17 @@ func (o *c03) Step(r *StepRec) []Violation {
 	a, pre, post := r.Action, r.Pre, r.Post
 	if got, want := post.Bal[o.w.DepositAcc], sumDeposits(post); got != want {
 		o.fail("c03:custody:"+a.Kind, "deposit account holds %d, bindings record %d after %s", got, want, a.Kind)
+	}
+	// the same in the second coin, where one exists (everything below reads the "stake" part of
+	// a deposit: a slash takes only the base denomination, a refund returns every coin)
+	var wantP int64
+	for _, b := range post.Binds {
+		wantP += mustI64(b.Deposit.AmountOf("point"))
+	}
+	if got := post.BalP[o.w.DepositAcc]; got != wantP {
+		o.fail("c03:custody:"+a.Kind, "deposit account holds %d point, bindings record %d point after %s", got, wantP, a.Kind)
+	} else if wantP > 0 {
+		o.hit("deposits_in_second_coin")
 	}
 	refundable := func(bk string) (bool, int64) {
 		b, ok := pre.Binds[bk]
@@ -227,7 +250,70 @@ func (o *c03) Step(r *StepRec) []Violation {
 	if decreasedBySlash != supplyFall {
 		o.fail("c03:burn:"+a.Kind, "deposits shrank by %d through slashing but supply fell by %d", decreasedBySlash, supplyFall)
 	}
+	if o.w.cfg.FundingPoint != nil {
+		o.secondCoin(r, e)
+	}
 	return o.take()
+}
+
+// secondCoin: the same rules for the "point" part of every deposit, in the cases where accounts hold
+// that coin: it grows only by what the owner sends with a bind / update / enable of that binding
+// (debited the same), shrinks only by a refund of everything or - while "point" is the base
+// denomination - by floor(part * fraction) per slash, and what slashes take is destroyed.
+func (o *c03) secondCoin(r *StepRec, e *Expect) {
+	a, pre, post := r.Action, r.Pre, r.Post
+	nSlash := map[string]int{}
+	for _, s := range e.Slashes {
+		nSlash[bkey(s.Service, s.Provider)]++
+	}
+	var burned int64
+	for _, bk := range sortedKeys(post.Binds) {
+		pb := post.Binds[bk]
+		d0, d1 := int64(0), mustI64(pb.Deposit.AmountOf("point"))
+		if preB, ok := pre.Binds[bk]; ok {
+			d0 = mustI64(preB.Deposit.AmountOf("point"))
+		}
+		mine := bkey(a.Service, a.Provider) == bk
+		switch {
+		case d1 > d0:
+			ok := (a.Kind == KBind || a.Kind == KUpdateBind || a.Kind == KEnable) && mine && a.DepDenom == "point" &&
+				a.Deposit != nil && *a.Deposit == d1-d0 && a.Signer == hx(pb.Owner)
+			if !ok {
+				o.fail("c03:grow2:"+a.Kind, "the point part of the deposit of %s grew by %d in %s", bk, d1-d0, a.Kind)
+			} else if pre.BalP[a.Signer]-post.BalP[a.Signer] != d1-d0 {
+				o.fail("c03:grow2:"+a.Kind, "the point part of the deposit of %s grew by %d but the owner was debited %d point", bk, d1-d0, pre.BalP[a.Signer]-post.BalP[a.Signer])
+			} else {
+				o.hit("deposit_sent_in_second_coin")
+			}
+		case d1 < d0:
+			if a.Kind == KRefundDep && mine {
+				if d1 != 0 || post.BalP[a.Signer]-pre.BalP[a.Signer] != d0 {
+					o.fail("c03:refund2", "refund left %d point on the binding and paid %d of %d point to the signer", d1, post.BalP[a.Signer]-pre.BalP[a.Signer], d0)
+				} else {
+					o.hit("refund_in_second_coin")
+				}
+				continue
+			}
+			k := nSlash[bk]
+			if k == 0 || o.w.cfg.baseDenom() != "point" {
+				o.fail("c03:shrink2:"+a.Kind, "the point part of the deposit of %s shrank by %d in %s without a refund or a slash in that denomination", bk, d0-d1, a.Kind)
+				continue
+			}
+			want := d0
+			for i := 0; i < k; i++ {
+				want -= floorMul(want, o.w.cfg.Slash)
+			}
+			if d1 != want {
+				o.fail("c03:slash2:"+a.Kind, "the point part of the deposit of %s is %d after %d slash(es) of fraction %s, expected %d (was %d)", bk, d1, k, o.w.cfg.Slash, want, d0)
+			} else {
+				o.hit("slash_in_second_coin")
+			}
+			burned += d0 - d1
+		}
+	}
+	if fall := pre.SupplyP - post.SupplyP; fall != burned {
+		o.fail("c03:burn2:"+a.Kind, "point deposits shrank by %d through slashing but the supply of point fell by %d", burned, fall)
+	}
 }
 
 func (o *c03) NonTrivial() bool {
@@ -418,33 +504,39 @@ func (o *c05) Step(r *StepRec) []Violation {
 			o.fail("c05:modulectx:"+a.Kind, "%s message succeeded on a context created by module", a.Kind)
 		}
 	}
-	// debits
-	diff := balanceDiff(pre, post)
-	switch {
-	case a.Kind == KEndBlock:
-		allowed := map[string]bool{}
-		fees := map[string]int64{}
-		for _, id := range NewReqs(r) {
-			rq := post.Reqs[id]
-			fees[hx(rq.RequestContextId)] += stakeOf(rq.ServiceFee)
-		}
-		for cid, f := range fees {
-			if rc, ok := pre.Ctxs[cid]; ok && rc.State == 0 && f > 0 {
-				allowed[hx(rc.Consumer)] = true
+	// debits (in every coin that exists)
+	denoms := []string{"stake"}
+	if o.w.cfg.FundingPoint != nil {
+		denoms = append(denoms, "point")
+	}
+	for _, denom := range denoms {
+		diff := balanceDiffIn(pre, post, denom)
+		switch {
+		case a.Kind == KEndBlock:
+			allowed := map[string]bool{}
+			fees := map[string]int64{}
+			for _, id := range NewReqs(r) {
+				rq := post.Reqs[id]
+				fees[hx(rq.RequestContextId)] += amtIn(rq.ServiceFee, denom)
 			}
-		}
-		for _, acc := range sortedAddrs(diff) {
-			if diff[acc] < 0 && !o.isModuleAcc(acc) && !allowed[acc] {
-				o.fail("c05:debit:end_block", "end-block lowered the balance of %s by %d; it is not the consumer of a running context that issued a paid batch", short(acc), -diff[acc])
+			for cid, f := range fees {
+				if rc, ok := pre.Ctxs[cid]; ok && rc.State == 0 && f > 0 {
+					allowed[hx(rc.Consumer)] = true
+				}
 			}
-		}
-		if len(allowed) > 0 {
-			o.hit("end_block_debit")
-		}
-	default:
-		for _, acc := range sortedAddrs(diff) {
-			if diff[acc] < 0 && !o.isModuleAcc(acc) && acc != a.Signer {
-				o.fail("c05:debit:"+a.Kind, "%s signed by %s lowered the balance of %s by %d", a.Kind, short(a.Signer), short(acc), -diff[acc])
+			for _, acc := range sortedAddrs(diff) {
+				if diff[acc] < 0 && !o.isModuleAcc(acc) && !allowed[acc] {
+					o.fail("c05:debit:end_block", "end-block lowered the %s balance of %s by %d; it is not the consumer of a running context that issued a paid batch", denom, short(acc), -diff[acc])
+				}
+			}
+			if len(allowed) > 0 {
+				o.hit("end_block_debit")
+			}
+		default:
+			for _, acc := range sortedAddrs(diff) {
+				if diff[acc] < 0 && !o.isModuleAcc(acc) && acc != a.Signer {
+					o.fail("c05:debit:"+a.Kind, "%s signed by %s lowered the %s balance of %s by %d", a.Kind, short(a.Signer), denom, short(acc), -diff[acc])
+				}
 			}
 		}
 	}
